@@ -14,9 +14,24 @@ from __future__ import annotations
 from typing import Iterator, List, overload, Optional
 from typing_extensions import Literal
 
+from spil import conf
 from spil.sid.sid import Sid
 from spil.sid.read.util import first
 from spil.sid.read.tools import unfold_search
+
+
+def is_plain_sid(sid: Sid) -> bool:
+    """
+    Returns True if the given Sid can be searched as it is, without unfolding:
+    it is typed, contains no search symbol, carries no unapplied query,
+    and its last value is not an extension alias (which stands for several extensions).
+    """
+    if not sid or sid.is_search():
+        return False
+    string = str(sid)
+    if string.count("?"):
+        return False
+    return string.split(conf.sip)[-1] not in conf.extension_alias
 
 
 class Finder:
@@ -79,7 +94,7 @@ class Finder:
         """
         # shortcut if Sid is not a search
         sid = Sid(search_sid)
-        if sid and not sid.is_search():
+        if is_plain_sid(sid):
             generator = self.do_find([sid], as_sid=as_sid)
         else:
             search_sids = unfold_search(search_sid)
